@@ -1404,7 +1404,15 @@ func (g *G) constExpr(depth int) *Node {
 			v := g.constExpr(depth + 1)
 			items = append(items, &Node{Kind: "ExprArrayItem", Kids: []Kid{one("Val", v)}, Parts: parts(v)})
 		}
-		return &Node{Kind: "ExprArray", Kids: []Kid{list("Items", items)}, Parts: parts(t("["), sepList(items, ","), t("]")), Prec: 100}
+		body := sepList(items, ",")
+		if len(items) > 0 && g.R.Chance(1, 3) && !g.O.Formatter {
+			items = append(items, &Node{Kind: "ExprArrayItem"}) // trailing comma: a final empty item in this AST
+			body = append(body, t(","))
+		}
+		if g.R.Bool() {
+			return &Node{Kind: "ExprArray", Kids: []Kid{list("Items", items)}, Parts: parts(g.kw("array"), t("("), body, t(")")), Prec: 100}
+		}
+		return &Node{Kind: "ExprArray", Kids: []Kid{list("Items", items)}, Parts: parts(t("["), body, t("]")), Prec: 100}
 	case 4:
 		cls := g.name(true)
 		c := g.identifier(g.ident())
